@@ -9,6 +9,8 @@ def _split(line):
 def _corr_skip(op, impl, model):
     """the model prints `?` where a function body is not modelled (float arithmetic, regexps, clock): the typed tree must
     agree exactly, the values wherever the model has one"""
+    if op.startswith("qry "):
+        return True     # whole queries through the CLI are oracle-only: the Lean model does not cover them
     if "?" not in model:
         return False
     ti, vi = _split(impl)
@@ -54,6 +56,7 @@ def _nontrivial(op, out):
 PROP = dict(
     lean_modules=["Octo.Props.C08"],
     gen=["functable"],
+    needs_binary=True,
     required_theorems=[
         "Octo.C08.table_indices", "Octo.C08.table_out_wf", "Octo.C08.table_params", "Octo.C08.table_kinds_within",
         "Octo.C08.table_tyfn_kinds", "Octo.C08.nonnull_output_never_returns_null", "Octo.C08.typeFn_probes_agree",
